@@ -3,6 +3,7 @@
 import json, os, glob
 ROOT = os.path.dirname(os.path.dirname(os.path.abspath(__file__)))
 rows = []
+benign = []
 for d in sorted(glob.glob(os.path.join(ROOT, "seeded", "*/"))):
     name = os.path.basename(d.rstrip("/"))
     meta = json.load(open(os.path.join(d, "meta.json"))) if os.path.exists(os.path.join(d, "meta.json")) else {}
@@ -14,6 +15,9 @@ for d in sorted(glob.glob(os.path.join(ROOT, "seeded", "*/"))):
     for p in caught:
         if any(l.startswith("VIOLATION") and "no-failing-input-found" not in l for l in checks[p]["lines"]):
             concrete.append(p)
+    if meta.get("kind") == "benign":
+        benign.append((name, meta.get("area", ""), caught, missed, res.get("note", "")))
+        continue
     rows.append((name, meta.get("breaks", "?"), meta.get("change", ""), meta.get("needs", ""), caught, concrete, missed, meta.get("note", "")))
 out = ["# Seeded regressions and which checks catch them", "",
        "Each change was written by a fresh sub-agent that saw only the property text and a scratch worktree, compiles, passes the unedited",
@@ -28,5 +32,10 @@ if notes:
     out.append("## Notes")
     for n, note in notes:
         out.append("* **%s**: %s" % (n, note))
+out += ["", "## Behaviour-preserving refactors (no check may report anything)", "",
+        "Written by sub-agents asked for a realistic maintenance change in one area that changes no observable result; all pass the unedited tests.", "",
+        "| change | area | alarms | checks that ran silently | note |", "|---|---|---|---|---|"]
+for name, area, caught, missed, note in benign:
+    out.append("| %s | %s | %s | %s | %s |" % (name, area, ", ".join(caught) or "none", "all 20" if len(missed) == 20 else ", ".join(missed), note))
 open(os.path.join(ROOT, "seeded", "SUMMARY.md"), "w").write("\n".join(out) + "\n")
 print("\n".join(out[5:]))
